@@ -144,6 +144,7 @@ def run(ck):
     dm = {"kind": "file", "path": world.PKG + "/data_manipulation.yaml"}
     fam = lambda k: {"kind": "family", "seed": ck.seed + k}
     targets = [("pkg/data_manipulation.yaml (no nmne section)", dm, {"nmne": None, "seed": 5}, 30),
+               ("pkg/data_manipulation.yaml (NMNE capture on, attacker from step 2)", dm, {"seed": 5, "early_attacker": True}, 24),
                ("family/%d" % ck.seed, fam(0), {"seed": 5, "max_episode_length": 40}, 16),
                ("family/%d" % (ck.seed + 1), fam(1), {"seed": 5, "max_episode_length": 40}, 16)]
     if not ck.quick:
@@ -162,10 +163,13 @@ def run(ck):
         a_cfg = family.generate(sc["seed"]) if sc["kind"] == "family" else world.load_cfg(sc["path"])
         a_nmne = None if "nmne" in patch and patch["nmne"] is None else patch.get("nmne", a_cfg["simulation"]["network"].get("nmne_config"))
         others = [(n, dict(o, b_patch=dict(o["b_patch"], nmne=a_nmne)) if "same-nmne" in n else o) for n, o in others0]
-        base = {"a": sc, "a_patch": dict(patch, nmne=patch.get("nmne", None) if "nmne" in patch else None) if False else patch, "seed": 5, "reset_seed": 21, "action_seed": 8, "steps": steps}
+        base = {"a": sc, "a_patch": patch, "seed": 5, "reset_seed": 21, "action_seed": 8, "steps": steps, "idle": bool(patch.get("early_attacker"))}
         jobs.append((name, "reference", dict(base, measure_episode=1, dirty=False, other=None)))
         jobs.append((name, "after-dirty-episodes", dict(base, measure_episode=3, dirty=True, other=None)))
         jobs.append((name, "after-clean-episodes", dict(base, measure_episode=3, dirty=False, other=None)))
+        jobs.append((name, "after-dirty-episodes-reset-with-the-same-seed", dict(base, measure_episode=3, dirty=True, other=None, earlier_seed="same")))
+        jobs.append((name, "other-instance-with-the-same-settings-closed-mid-episode",
+                     dict(base, measure_episode=2, dirty=False, other={"b": sc, "b_patch": dict(patch), "when": "closed-mid-episode", "quiet": True})))
         for oname, o in others:
             jobs.append((name, oname, dict(base, measure_episode=2, dirty=True, other=o)))
     # episode-scheduled scenarios: the looped episode vs the first pass in a fresh process
